@@ -153,11 +153,22 @@ def scan_forbidden():
 
 
 def translate(ctx):
+    """Regenerate the tables. A section of the sources the translator cannot read any more gets a poison table (tools/translate.py):
+    the theorems and ties that depend on it then fail on their own and carry the verdict; a property that does not use the table is
+    not disturbed. The unreadable sections are recorded in the evidence either way."""
     rc, out = sh([sys.executable, os.path.join(VERIF, "tools", "translate.py")])
     if rc != 0:
         ctx.log("translator failed:\n" + out[-3000:])
         ctx.broken.append("translator: " + out.strip().split("\n")[-1][:300])
         return False
+    try:
+        st = json.load(open(os.path.join(LEAN, "TsRsVerif", "Generated", "translate_status.json")))
+    except (OSError, ValueError):
+        st = {"failed": []}
+    ctx.untranslated = st.get("failed", [])
+    for f in ctx.untranslated:
+        ctx.notes.append(f"translator: could not read `{f['section']}` from the sources ({f['message']}); its table holds a poison row, so every theorem and tie "
+                         "of this property that depends on it fails below — if nothing fails, this property does not depend on it")
     return True
 
 
